@@ -121,8 +121,75 @@ def run(ctx):
         shutil.rmtree(work, ignore_errors=True)
 
 
+def features_of(prog):
+    """features a random sample may or may not contain; the check selects programs so that each is present"""
+    feats = set()
+    types = {t['n']: [f['n'] for f in t['fields']] for t in prog.get('types', [])}
+
+    def walk_expr(e, fn):
+        if isinstance(e, dict):
+            fn(e)
+            for v in e.values():
+                walk_expr(v, fn)
+        elif isinstance(e, list):
+            for v in e:
+                walk_expr(v, fn)
+    for p in prog['procs']:
+        recparams = {q['n']: q.get('rec') for q in p['params'] if q.get('t') == 'R'}
+        names = {q['n'] for q in p['params']}
+        acc = {}
+        forwarded = [False]
+
+        def visit(e, recparams=recparams, names=names, acc=acc, forwarded=forwarded):
+            if e.get('k') == 'lv' and e.get('n') in recparams and e.get('fl'):
+                acc.setdefault(e['n'], []).append(e['fl'][0])
+            if e.get('k') in ('callsub', 'call'):
+                for a in e.get('args', []):
+                    if isinstance(a, dict) and a.get('k') in ('lv', 'arr') and a.get('n') in names and not a.get('ix') and not a.get('fl'):
+                        forwarded[0] = True
+        walk_expr(p['body'], visit)
+        for nm, fl in acc.items():
+            fields = types.get(recparams[nm], [])
+            if len(fl) >= 2 and any(f in fields[1:] for f in fl[:-1]):
+                feats.add('record-param-reaccessed')
+        if forwarded[0]:
+            feats.add('param-forwarded')
+            if recparams:
+                feats.add('record-param-forwarded')
+    return feats
+
+
+WANTED = ('record-param-reaccessed', 'param-forwarded', 'record-param-forwarded')
+
+
+def _feat_job(seed):
+    try:
+        g = gen.Gen(seed, size=10, depth=3)
+        prog = g.program(wide=True)
+    except Exception:
+        return seed, []
+    return seed, sorted(features_of(prog))
+
+
+def directed_seeds(ctx, per_feature):
+    """seeds of generated programs that contain each wanted feature (deterministic scan of a seed range)"""
+    base = ctx.seed * 100000 + 20000
+    found = {f: [] for f in WANTED}
+    for lo in range(0, 3000, 300):
+        for seed, fs in par.pmap(_feat_job, [base + i for i in range(lo, lo + 300)], chunk=20):
+            for f in fs:
+                if f in found and len(found[f]) < per_feature:
+                    found[f].append(seed)
+        if all(len(v) >= per_feature for v in found.values()):
+            break
+    return found
+
+
 def collect(ctx, n, size, depth):
     jobs = [(ctx.seed * 100000 + i, size, depth, True) for i in range(n)]
+    found = directed_seeds(ctx, ctx.pick(4, 30))
+    ctx.coverage['directed_features'] = {f: len(v) for f, v in found.items()}
+    jobs += [(s, 10, 3, True) for s in sorted({s for v in found.values() for s in v})]
     res = par.pmap(_job, jobs, chunk=2)
     cases = []
     for r in res:
